@@ -179,6 +179,14 @@ var alphaSEN = []byte(",:\"']}[{()+-.01entf\\/*# \nI")
 var alphaJP = []byte("$@.[]()?*'\",:-01a=!<>&|~ ")
 var confusions = []string{"0", "1]", "1}", "\"\":0", ":0", "\"", "\":0", ",0", ",\"\":0", "ull", "rue", "alse", ".5", "e1", "5",
 	"\"b\":1", ",\"b\":1", "\"b\":1}", ",1]", "1,2", ":1,\"b\":2"}
+
+// (prefix, suffix) pairs; the witness of a machine state is a prefix of a JSON value, so it fits where a value is expected
+var embeddings = [][2]string{
+	{"[\"\\u0041\\ud83d\\ude00\",", "]"},
+	{"{\"k\\u0041\":[-0.5E-2,false,\"\\ud83d\\ude00\\n\"],\n\"b\":", "}"},
+	{"[true,1.25e+3,\"x\\ty\",\n null , ", "]"},
+}
+var embConfusions = []string{"ull", "rue", "alse", "\"b\":1", ",1", ":0"}
 var classReps = []byte(" \n{}[],:\"\\/bfnrtualseE01-+.x\x01\x7f\x80cA'()")
 
 func rName(r int) string {
@@ -579,6 +587,64 @@ func genStates(path string, quick bool, want map[string]bool, emit func(job)) {
 		for _, c := range alphaJSON {
 			if !bytes.Contains(classReps, []byte{c}) {
 				bytesToTry = append(bytesToTry, c)
+			}
+		}
+		// embeddings: the same (state, byte, continuation) cases behind prefixes that contain EARLIER tokens - an escaped
+		// string with \uXXXX incl. a surrogate pair, literals, a number with fraction and exponent, newlines - so that
+		// registers an earlier token left behind (hex-digit counters, literal indexes, number accumulators, the scratch
+		// buffer, line/offset bookkeeping) are live when the transition is taken.  c = "" runs on every entry point incl.
+		// the 1-byte readers; longer continuations on the whole-buffer front-ends (SEN: c = "" only).
+		if len(w) == 0 || w[0] != 0xEF {
+			for _, l := range langs {
+				for ei, em := range embeddings {
+					if quick && l == "sen" && ei > 0 {
+						continue // the SEN front-ends are ~20x slower per call: one embedding in the quick tier
+					}
+					pre, post := []byte(em[0]), []byte(em[1])
+					ecls := fmt.Sprintf("emb%d-step:%s", ei+1, s.Pc)
+					emit(job{b: cat(pre, w), cls: fmt.Sprintf("emb%d-eof:%s", ei+1, s.Pc), lang: l})
+					emit(job{b: cat(pre, w, plib.Bytes(s.C), post), cls: fmt.Sprintf("emb%d-compl:%s", ei+1, s.Pc), lang: l})
+					for _, x := range bytesToTry {
+						if l != "sen" || !quick {
+							for _, mid := range embConfusions {
+								emit(job{b: cat(pre, w, []byte{x}, []byte(mid), cl, post), cls: ecls, lang: l, light: true})
+							}
+						}
+						d := kAll
+						if l == "sen" {
+							d = 0
+						}
+						conts(alphaJSON, d, func(c []byte) {
+							in := cat(pre, w, []byte{x}, c)
+							emit(job{b: in, cls: ecls, lang: l, light: len(c) > 0})
+							emit(job{b: cat(in, cl, post), cls: ecls, lang: l, light: len(c) > 0})
+						})
+					}
+				}
+				// the token under test straddles the 4096-byte refill of the reader variants: the \u prefix, padding, then
+				// the witness placed so that the boundary falls 1, 2 or 3 bytes before its end
+				pre0 := []byte(embeddings[0][0])
+				sbytes, jmax := classReps, 3
+				if quick {
+					if l == "sen" {
+						continue
+					}
+					sbytes, jmax = []byte(",]}\" :0ena\\u"), 2
+				}
+				for j := 1; j <= jmax && j <= len(w); j++ {
+					pad := 4096 - (len(pre0) + len(w) - j)
+					if pad < 0 {
+						continue
+					}
+					pre := cat(pre0, bytes.Repeat([]byte{' '}, pad))
+					scls := "straddle4096:" + s.Pc
+					emit(job{b: cat(pre, w), cls: scls, lang: l})
+					emit(job{b: cat(pre, w, plib.Bytes(s.C), []byte(embeddings[0][1])), cls: scls, lang: l})
+					for _, x := range sbytes {
+						emit(job{b: cat(pre, w, []byte{x}), cls: scls, lang: l})
+						emit(job{b: cat(pre, w, []byte{x}, cl, []byte(embeddings[0][1])), cls: scls, lang: l})
+					}
+				}
 			}
 		}
 		for _, l := range langs {
